@@ -635,7 +635,8 @@ def extract(bdir):
         for lp in loops:
             cond, inc = kids(lp)[-3], kids(lp)[-2]
             e, pp = tr(f + ".slots", (var,), fn)
-            need(f + ".slots", pp(cond) == "%s < (calloutCycleSize : Int)" % var,
+            # from 0 in steps of one, `<` and `!=` visit the same slots
+            need(f + ".slots", pp(cond) in ("%s < (calloutCycleSize : Int)" % var, "%s ≠ (calloutCycleSize : Int)" % var),
                  "a loop over the slots no longer runs while `%s < CALLOUT_CYCLE_SIZE`: %s" % (var, src_of(cond, text)))
             need(f + ".slots", inc.get("kind") == "UnaryOperator" and inc.get("opcode") == "++" and ref_name(inc["inner"][0]) == var,
                  "a loop over the slots no longer advances by `%s++`" % var)
